@@ -19,7 +19,8 @@ import (
 // Target is a target choice.
 type Target struct {
 	// Kind: "all" (the workspace directory), "dir" (module directory m<Node>),
-	// "file" (proto-file reference m<Node>/p<Node>/b.proto), "path" (workspace + --path m<Node>/p<Node>/b.proto).
+	// "file" (proto-file reference m<Node>/p<Node>/b.proto), "path" (workspace + --path m<Node>/p<Node>/b.proto),
+	// "pathdir" (workspace + --path m<Node>/p<Node>, a sub-directory of the module).
 	Kind string `json:"kind"`
 	Node int    `json:"node"`
 }
@@ -33,6 +34,12 @@ func (t Target) String() string {
 
 // filePath is the workspace path of the target file for the "file" and "path" targets.
 func (t Target) filePath(s Spec) string { return s.place(t.Node, bPath(t.Node)) }
+
+// subDirPath is the --path value of the "pathdir" target: the package directory inside the module.
+func (t Target) subDirPath(s Spec) string {
+	p := s.place(t.Node, bPath(t.Node))
+	return p[:strings.LastIndex(p, "/")]
+}
 
 // dirPath is the input directory of the "dir" target.
 func (t Target) dirPath(s Spec) string {
@@ -57,6 +64,8 @@ func (b *Built) workspace(ctx context.Context, t Target) (bufworkspace.Workspace
 			bufworkspace.WithProtoFileTargetPath(p, false))
 	case "path":
 		return bufx.Workspace(ctx, bucket, ".", []string{t.filePath(b.Spec)}, nil, b.Providers)
+	case "pathdir":
+		return bufx.Workspace(ctx, bucket, ".", []string{t.subDirPath(b.Spec)}, nil, b.Providers)
 	}
 	return nil, fmt.Errorf("unknown target kind %q", t.Kind)
 }
